@@ -178,3 +178,11 @@ void h_unlock(void) {
   VASSERT(POST_unlock(r), "H: unlock = unlock_internal (+ courtesy yield)");
   VCANARY("unlock can return");
 }
+/* init: from ANY memory content (a lock placed in recycled memory) the initialiser establishes the state every proof above starts from */
+void h_init(void) {
+  static fiber_mutex_t X; memset(&X, (int)verif_u64(), sizeof(X));
+  int r = fiber_mutex_init(&X);
+  if (r == FIBER_SUCCESS) VASSERT(X.counter == 1 && (X.waiters.head != 0 && X.waiters.head == X.waiters.tail && X.waiters.head->next == 0), "H: C03 init: the mutex starts free (counter 1) with an empty, usable wait queue, whatever the memory held");
+  else VASSERT(r == FIBER_ERROR, "H: C03 init reports an allocation failure as FIBER_ERROR");
+  VCANARY("init can return");
+}
